@@ -1,6 +1,7 @@
 package main
 
 import (
+	"encoding/binary"
 	"math/rand"
 
 	"verif/lib/codecs"
@@ -34,12 +35,31 @@ type gstate struct {
 // with the RTP marker); shapes may override it.
 type grammar func(r *rand.Rand, ro role, n int, g *gstate) (payload []byte, marker bool)
 
-// fresh allocates a payload with hdr header bytes (zero) followed by n PRNG bytes. Every packet
+// fresh allocates a payload with hdr header bytes (zero) followed by n body bytes. Every packet
 // gets its own backing array: returned frames alias packet payloads, and the memory walker
-// de-duplicates by address.
+// de-duplicates by address. Bodies up to 256 bytes are PRNG bytes; longer ones have PRNG bytes at
+// both ends and a per-packet tag every 128 bytes in between (enough for the stability monitor to
+// see foreign bytes anywhere, at a fraction of the memory traffic).
 func fresh(r *rand.Rand, hdr, n int) []byte {
 	b := make([]byte, hdr+max(n, 0))
-	codecs.Fill(r, b[hdr:])
+	body := b[hdr:]
+	if len(body) <= 256 {
+		codecs.Fill(r, body)
+		return b
+	}
+	codecs.Fill(r, body[:128])
+	codecs.Fill(r, body[len(body)-64:])
+	tag := r.Uint64() | 1
+	for i := 128; i+8 <= len(body)-64; i += 128 {
+		binary.LittleEndian.PutUint64(body[i:], tag+uint64(i)<<32)
+	}
+	return b
+}
+
+// freshDense: all PRNG bytes.
+func freshDense(r *rand.Rand, n int) []byte {
+	b := make([]byte, max(n, 0))
+	codecs.Fill(r, b)
 	return b
 }
 
@@ -661,7 +681,10 @@ func gKLV(r *rand.Rand, ro role, n int, _ *gstate) ([]byte, bool) {
 		case 1:
 			p[16], p[17], p[18] = 0x82, 0xFF, 0xFF
 		default: // 8-byte length
-			p = append(p[:16], 0x88, 0x7F, 0xFF, 0xFF, 0xFF, 0xFF, 0xFF, 0xFF, 0xFF)
+			if len(p) < 25 {
+				p = append(p, make([]byte, 25-len(p))...)
+			}
+			copy(p[16:], []byte{0x88, 0x7F, 0xFF, 0xFF, 0xFF, 0xFF, 0xFF, 0xFF, 0xFF})
 		}
 		return p, false
 	case rMiddle:
